@@ -6,6 +6,8 @@ From JsonSyntax Require Import Base.Prelude Base.Value Base.Unicode Model.Compar
   Model.Canon Spec.EcmaNumber Spec.Jcs Spec.PermEq Spec.Multimap Spec.CanonSpec
   Proofs.CompareProofs Proofs.ObjectInv Proofs.CanonProofs
   Base.Float64 Proofs.Float64Proofs Proofs.NumberProofs Proofs.CanonNumber.
+From JsonSyntax Require Proofs.PrintGrammar.
+From JsonSyntax Require Import Model.Parser Model.EntryPoints Model.Unordered Spec.Minimal Proofs.CrossProps.
 From Coq Require Import Sorting.Permutation.
 
 (* T2: idempotent, given that the number conversion is *)
@@ -122,6 +124,23 @@ Theorem C10_order_blind : forall v w, keys_scalar v -> PermEq v w ->
   Spec.Minimal.ser_min (canonicalize ref_num_canon v) = Spec.Minimal.ser_min (canonicalize ref_num_canon w).
 Proof. exact canon_ref_perm_text. Qed.
 
+(* across properties: what the implementation's unordered equality (C15) identifies has the same
+   canonical bytes; the canonical text is strict JSON that parses back (C04, C08) to the
+   canonicalized value, a fixed point of canonicalization *)
+Theorem C10_unordered_eq_same_canonical_text : forall v w, keys_scalar v -> unordered_eq v w = true ->
+  Spec.Minimal.ser_min (canonicalize ref_num_canon v) = Spec.Minimal.ser_min (canonicalize ref_num_canon w).
+Proof. exact canon_unordered_text. Qed.
+Theorem C10_canonical_text_reparses : forall num_canon v, PrintGrammar.wfv (canonicalize num_canon v) ->
+  exists m, parse_str (Spec.Minimal.ser_min (canonicalize num_canon v)) = Ok (canonicalize num_canon v, m).
+Proof. exact canonical_text_reparses. Qed.
+Theorem C10_canonical_text_fixed_point : forall v, PrintGrammar.wfv (canonicalize ref_num_canon v) ->
+  exists m w, parse_str (Spec.Minimal.ser_min (canonicalize ref_num_canon v)) = Ok (w, m) /\
+    canonicalize ref_num_canon w = w.
+Proof. exact canonical_text_fixed_point. Qed.
+
+Print Assumptions C10_unordered_eq_same_canonical_text.
+Print Assumptions C10_canonical_text_reparses.
+Print Assumptions C10_canonical_text_fixed_point.
 Print Assumptions C10_canon_idem.
 Print Assumptions C10_canon_perm.
 Print Assumptions C10_canon_perm_wfv.
